@@ -330,6 +330,7 @@ type harnessDb struct {
 	events  []string
 	raised  int // vetoes actually raised by the harness constraint in the current transaction
 	sharedCtx boltz.MutateContext // the context reused by every transaction that carries the pseudo veto "@ctx"
+	factsTx *bbolt.Tx // when set, facts() projects the content seen by THIS (possibly uncommitted) transaction (C09 in-transaction checks)
 }
 
 func changeLetter(t boltz.EntityEventType) string {
@@ -949,7 +950,11 @@ func (h *harnessDb) facts() []string {
 		}
 	}
 	typed := c03tTypedKeys(h.w) // nil unless the wiring declares typed fields
-	_ = h.db.View(func(tx *bbolt.Tx) error {
+	view := h.db.View
+	if h.factsTx != nil {
+		view = func(f func(*bbolt.Tx) error) error { return f(h.factsTx) }
+	}
+	_ = view(func(tx *bbolt.Tx) error {
 		top := tx.Bucket([]byte("stores"))
 		if top == nil {
 			return nil
@@ -1037,6 +1042,11 @@ func (h *harnessDb) facts() []string {
 					}
 					sub := eb.Bucket(fk)
 					if sub == nil {
+						// a plain key written with a nil value earlier in THIS transaction (bbolt hands the stored nil back until
+						// the commit, an empty non-nil slice afterwards): the same fact as after the commit
+						if h.factsTx != nil && !ignoredFields[fname] {
+							out = append(out, fmt.Sprintf("F:%s:%s:%s:%s", name, ih, fname, fieldValStr(fv)))
+						}
 						return nil
 					}
 					if ignoredFields[fname] {
@@ -1045,7 +1055,7 @@ func (h *harnessDb) facts() []string {
 					if childNames[fname] {
 						out = append(out, fmt.Sprintf("C:%s:%s:%s", name, ih, fname))
 						_ = sub.ForEach(func(ck, cv []byte) error {
-							if cv != nil {
+							if cv != nil || (h.factsTx != nil && sub.Bucket(ck) == nil) {
 								out = append(out, fmt.Sprintf("CF:%s:%s:%s:%s:%s", name, ih, fname, ck, c03tFieldValStr(typed, fname+"."+string(ck), cv)))
 							} else if cs := sub.Bucket(ck); cs != nil && childSets[fname][string(ck)] {
 								_ = cs.ForEach(func(mk, mv []byte) error {
